@@ -168,6 +168,10 @@ func (e *c17Env) apply(o c17Op) (class, detail string) {
 			}
 			return "set-rejected", fmt.Sprintf("%s with correct bytes rejected: %v", o, err)
 		}
+		// the caller reuses its buffer after the call (as after any Write)
+		for i := range v {
+			v[i] ^= 0xff
+		}
 	case "setbad":
 		// inconsistent length or out-of-range: must be rejected (else later reads would be wrong)
 		v := make([]byte, o.Len+1)
